@@ -12,6 +12,7 @@
 import AHP.Lemmas.XPathSteps
 import AHP.Lemmas.XPathOpt
 import AHP.Lemmas.XPathDoc
+import AHP.Lemmas.XPathPipeline
 import AHP.Gen.Tables
 namespace AHP.C14
 open AHP AHP.XPath
@@ -51,6 +52,25 @@ theorem folding_sound (c : Ctx) (t : MT N) (hw : MT.wf 3 t = true) :
     | some l' => evalLevel nm c l' = evalLevel nm c t.flat
     | none => evalLevel nm c t.flat = none :=
   optimize_sound nm c t hw
+
+/-- C14b, the whole compile step: `parseBodyStringIntoBodyElements` on the flat form of a well-formed
+    predicate (number and string literals) — groups and function arguments optimised inside-out, an
+    all-static `concat(…)` replaced by its value, then the folder — yields a level that evaluates, for
+    every tag, to what the syntax tree denotes; and when the compile step raises, the predicate has no
+    value on any tag. -/
+theorem compile_sound (p : P N) (hw : P.wf 3 p = true) (hn : P.noNull p = true) :
+    match compileLevel nm (flatten p) with
+    | some l' => ∀ c, evalLevel nm c l' = evalP nm c p
+    | none => ∀ c, evalP nm c p = none := by
+  have h := levelOK_of_each nm p (eachOK nm p 3 hw hn)
+  unfold LevelOK at h
+  cases hc : compileLevel nm (flatten p) with
+  | none => rw [hc] at h; exact h
+  | some l' =>
+    rw [hc] at h
+    obtain ⟨t', rfl, w', _, ev'⟩ := h
+    intro c
+    rw [MT.evalLevel_flat nm c t' w', ev']
 
 /-- C14b on the pinned defects: `[@n + 1 = 3]`, `[@n - 1 - 1 = 0]` and `[2 = 1 + @n]` are left alone;
     `["a" || "b" = "ab"]` folds to `true`. -/
@@ -96,6 +116,24 @@ theorem evaluate_eq_denotation (d : Doc) (hp : PreOrder d) (ss : List (SStep N))
     (hw : ∀ s ∈ ss, ∀ p ∈ s.preds, P.wf 3 p = true) (start : List Nat) :
     evaluate nm d (flattenSteps ss) start = specEval nm d ss start :=
   runSteps_eq_spec nm d (desc_eq_specDesc d hp) ss hw true (dedup start)
+
+/-- C14d, the whole pipeline: compile (`XPathExpression.__init__`: tokenised form → constant folding) and
+    evaluate.  If the expression compiles, evaluation on every pre-order document from every start
+    collection is the denotation; if compiling raises, some predicate of the expression has no value on
+    any tag (e.g. `"a" + 1`) — the only situation in which the library rejects an expression whose
+    denotation on a particular document may still be defined (because no element reaches that predicate). -/
+theorem compile_evaluate_eq_denotation (d : Doc) (hp : PreOrder d) (ss : List (SStep N))
+    (hw : ∀ s ∈ ss, ∀ p ∈ s.preds, P.wf 3 p = true ∧ P.noNull p = true) :
+    match compileSteps nm (flattenSteps ss) with
+    | some cs => ∀ start, evaluate nm d cs start = specEval nm d ss start
+    | none => ∃ s ∈ ss, ∃ p ∈ s.preds, ∀ c, evalP nm c p = none := by
+  have h := compileSteps_for nm ss hw
+  cases hc : compileSteps nm (flattenSteps ss) with
+  | none => rw [hc] at h; exact h
+  | some cs =>
+    rw [hc] at h
+    intro start
+    exact runSteps_for nm d (desc_eq_specDesc d hp) cs ss h true (dedup start)
 
 /-- C14d (entry points): parser → its root nodes, element → itself, collection → its members;
     every entry point is `evaluate` on that start collection, so they agree by construction. The
